@@ -59,6 +59,7 @@ type Ctx struct {
 	boxedVars  map[types.Object]bool
 	locks      []string
 	wfDone     map[string]bool
+	lazyAxioms []string // stated only in queries that mention one of their function symbols
 	pcParent   map[string]string
 	pcPhi      map[string]string
 	interior   map[string]*Loc
@@ -516,6 +517,17 @@ func (o *Oblig) query(withModel, qf bool) string {
 	if !o.Vacuity {
 		b.WriteString("(assert (not " + o.Phi + "))\n")
 	}
+	if len(c.lazyAxioms) > 0 && !qf {
+		body := b.String()
+		for _, ax := range c.lazyAxioms {
+			for _, sym := range axiomSymbols(ax) {
+				if strings.Contains(body, "("+sym+" ") {
+					b.WriteString("(assert " + ax + ")\n")
+					break
+				}
+			}
+		}
+	}
 	b.WriteString("(check-sat)\n")
 	if withModel && len(o.Inputs) > 0 {
 		b.WriteString("(get-value (")
@@ -543,4 +555,20 @@ func evTerm(kind string, ch, val, a1, n string) string {
 		n = "0"
 	}
 	return fmt.Sprintf("(mkEv %d %s %s %s %s)", evKinds[kind], ch, val, a1, n)
+}
+
+// axiomSymbols: the uninterpreted function symbols an axiom talks about.
+func axiomSymbols(ax string) []string {
+	var out []string
+	for _, sym := range []string{"itoa", "str_concat", "strlen", "substr", "str_at"} {
+		if strings.Contains(ax, "("+sym+" ") {
+			out = append(out, sym)
+		}
+	}
+	for _, f := range strings.FieldsFunc(ax, func(r rune) bool { return r == '(' || r == ')' || r == ' ' }) {
+		if strings.HasPrefix(f, "sf_") || strings.HasPrefix(f, "pf_") {
+			out = append(out, f)
+		}
+	}
+	return out
 }
